@@ -252,14 +252,24 @@ class Xray(object):
     def __init__(self, element):
         self.element = element
 
+    @property
+    def _symbol(self):
+        # X-ray data belongs to the chemical element.  Isotopes and ions
+        # use the tables for the element, including D and T, which have
+        # a symbol of their own.
+        element = self.element
+        while not isinstance(element, Element):
+            element = element.element
+        return element.symbol
+
     def _gettable(self):
         if self._table is None:
             # Load table when necessary; note there is no table for
             # neutrons (n), and lowercase nitrogen=> n.nff, so it must
             # be checked for explicitly.
             filename = os.path.join(self._nff_path,
-                                    self.element.symbol.lower()+".nff")
-            if self.element.symbol != 'n' and os.path.exists(filename):
+                                    self._symbol.lower()+".nff")
+            if self._symbol != 'n' and os.path.exists(filename):
                 xsf = numpy.loadtxt(filename, skiprows=1).T
                 xsf[1, xsf[1] == -9999.] = numpy.nan
                 xsf[0] *= 0.001  # Use keV in table rather than eV
@@ -327,7 +337,7 @@ class Xray(object):
         """
         from . import cromermann
         f = cromermann.fxrayatq(Q=Q,
-                                symbol=self.element.symbol,
+                                symbol=self._symbol,
                                 charge=self.element.charge)
         return f
 
